@@ -375,6 +375,7 @@ private:
     /** Parse optional name tag. */
     std::string name(bool instanceLine = false);
     std::string readString(tag_t tag, bool instanceLine = false);
+    bool readContent(std::string& text);
     std::string readText(bool instanceLine = false);
     int readNumber();
     /** Parse obligatory source tag. */
@@ -559,13 +560,38 @@ int XMLReader::parse(const xmlChar* text, xta_part_t syntax)
     return parse_XTA((const char*)text, parser, newxta, syntax, path.str());
 }
 
+/**
+ * Reads the character data of the element the reader is on and stops on the first node that is neither
+ * character data nor a comment or processing instruction (normally the end tag). A comment inside the
+ * element splits its content into several text nodes: all of them belong to the text.
+ * Returns false if the element has no text node.
+ */
+bool XMLReader::readContent(std::string& text)
+{
+    text.clear();
+    bool found = false;
+    const bool empty = isEmpty();
+    read();
+    while (!empty) {
+        const int type = getNodeType();
+        const bool chars = (type == XML_READER_TYPE_TEXT || type == XML_READER_TYPE_CDATA);
+        if (chars || type == XML_READER_TYPE_WHITESPACE || type == XML_READER_TYPE_SIGNIFICANT_WHITESPACE) {
+            if (const auto* value = (const char*)xmlTextReaderConstValue(reader.get()); value != nullptr)
+                text += value;
+            found = found || chars;
+        } else if (type != XML_READER_TYPE_COMMENT && type != XML_READER_TYPE_PROCESSING_INSTRUCTION) {
+            break;
+        }
+        read();
+    }
+    return found;
+}
+
 bool XMLReader::declaration()
 {
     if (begin(tag_t::DECLARATION)) {
-        read();
-        if (getNodeType() == XML_READER_TYPE_TEXT) {
-            parse(xmlTextReaderConstValue(reader.get()), S_DECLARATION);
-        }
+        if (std::string text; readContent(text))
+            parse((const xmlChar*)text.c_str(), S_DECLARATION);
         return true;
     }
     return false;
@@ -578,10 +604,9 @@ bool XMLReader::label(bool required, const std::string& s_kind)
         char* kind = getAttribute("kind");
         if (kind == nullptr)
             throw TypeException("A label must have a \"kind\" attribute");
-        read();
         /* Read the text and push it to the parser. */
-        if (getNodeType() == XML_READER_TYPE_TEXT) {
-            const xmlChar* text = xmlTextReaderConstValue(reader.get());
+        if (std::string content; readContent(content)) {
+            const auto* text = (const xmlChar*)content.c_str();
             static const auto map = std::map<std::string_view, xta_part_t>{
                 {"invariant", S_INVARIANT},  {"select", S_SELECT},     {"guard", S_GUARD},
                 {"synchronisation", S_SYNC}, {"assignment", S_ASSIGN}, {"probability", S_PROBABILITY},
@@ -612,10 +637,9 @@ int XMLReader::invariant()
         char* kind = getAttribute("kind");
         if (kind == nullptr)
             throw TypeException{"A label must have a \"kind\" attribute"};
-        read();
         /* Read the text and push it to the parser. */
-        if (getNodeType() == XML_READER_TYPE_TEXT) {
-            const xmlChar* text = xmlTextReaderConstValue(reader.get());
+        if (std::string content; readContent(content)) {
+            const auto* text = (const xmlChar*)content.c_str();
             auto kind_sv = std::string_view{kind};
             // This is a terrible mess but it's too badly designed
             // to fix at this moment.
@@ -642,57 +666,45 @@ std::string XMLReader::name(bool instanceLine)
 
 std::string XMLReader::readText(bool instanceLine)
 {
-    if (getNodeType() == XML_READER_TYPE_TEXT) {  // text content of a node
-        xmlChar* text = xmlTextReaderValue(reader.get());
-        auto len = text ? std::strlen((const char*)text) : 0;
-        auto text_sv = std::string_view{(const char*)text, len};
+    if (std::string text; readContent(text)) {  // text content of a node
+        auto text_sv = std::string_view{text};
         tracker.setPath(parser, path.str());
         tracker.increment(parser, text_sv.size());
         try {
             std::string_view id = (instanceLine) ? text_sv : symbol(text_sv);
-            if (!is_keyword(id, syntax_t::OLD_PROPERTY)) {
-                auto res = std::string{id};
-                xmlFree(text);
-                return res;
-            }
+            if (!is_keyword(id, syntax_t::OLD_PROPERTY))
+                return std::string{id};
             parser->handle_error(TypeException{"$Keywords_are_not_allowed_here"});
         } catch (std::logic_error& str) {
             parser->handle_error(TypeException{str.what()});
         }
-        xmlFree(text);
     }
     return "";
 }
 
 int XMLReader::readNumber()
 {
-    read();
-    if (getNodeType() == XML_READER_TYPE_TEXT) {  // text content of a node
+    if (std::string text; readContent(text)) {  // text content of a node
         tracker.setPath(parser, path.str());
-        xmlChar* text = xmlTextReaderValue(reader.get());
-        const char* pc = (const char*)text;
-        auto len = std::strlen(pc);
+        const char* pc = text.c_str();
+        auto len = text.size();
         tracker.increment(parser, len);
         try {
             int value;
             if (auto [p, ec] = std::from_chars(pc, pc + len, value); ec != std::errc{})
                 throw std::logic_error{std::make_error_code(ec).category().name()};
-            xmlFree(text);
             return value;
         } catch (const char* str) {
             parser->handle_error(TypeException{str});
         }
-        xmlFree(text);
     }
     return -1;
 }
 
 std::string XMLReader::readString(tag_t tag, bool instanceLine)
 {
-    if (begin(tag)) {
-        read();
+    if (begin(tag))
         return readText(instanceLine);
-    }
     return "";
 }
 
@@ -835,7 +847,6 @@ bool XMLReader::yloccoord()
 std::string XMLReader::temperature()
 {
     if (begin(tag_t::TEMPERATURE, false)) {
-        read();
         /* Get the temperature of the condition */
         return readText();
     }
@@ -1076,10 +1087,8 @@ int XMLReader::parameter()
 {
     int count = 0;
     if (begin(tag_t::PARAMETER)) {
-        read();
-        if (getNodeType() == XML_READER_TYPE_TEXT) {
-            count = parse(xmlTextReaderConstValue(reader.get()), S_PARAMETERS);
-        }
+        if (std::string text; readContent(text))
+            count = parse((const xmlChar*)text.c_str(), S_PARAMETERS);
     }
     return count;
 }
@@ -1174,11 +1183,9 @@ bool XMLReader::lscTempl()
 bool XMLReader::instantiation()
 {
     if (begin(tag_t::INSTANTIATION, false)) {
-        const auto* text = (const xmlChar*)"";
-        read();
-        if (getNodeType() == XML_READER_TYPE_TEXT)
-            text = xmlTextReaderConstValue(reader.get());
-        parse(text, S_INST);
+        std::string text;
+        readContent(text);
+        parse((const xmlChar*)text.c_str(), S_INST);
         return true;
     }
     return false;
@@ -1187,15 +1194,13 @@ bool XMLReader::instantiation()
 void XMLReader::system()
 {
     if (begin(tag_t::SYSTEM, false)) {
-        const auto* text = (const xmlChar*)"";
-        read();
-        auto nodeType = getNodeType();
-        if (nodeType == XML_READER_TYPE_TEXT)
-            text = xmlTextReaderConstValue(reader.get());
+        std::string content;
+        const bool found = readContent(content);
+        const auto* text = (const xmlChar*)content.c_str();
         // if there are no non-space characters in the text (or the text is empty),
         // bison doesn't manage to properly set the position of errors,
         // leading to nonsense error placements.
-        if (nodeType == XML_READER_TYPE_END_ELEMENT || is_blank(text)) {
+        if (!found || is_blank(text)) {
             tracker.setPath(parser, path.str(tag_t::SYSTEM));
             tracker.increment(parser, 1);
             parser->handle_error(TypeException{"$syntax_error: $unexpected $end"});
@@ -1246,9 +1251,10 @@ bool XMLReader::formula()
 {
     if (begin(tag_t::FORMULA, false)) {
         if (!isEmpty()) {
-            read();
             std::string xpath = path.str(tag_t::FORMULA);
-            parser->query_formula((const char*)xmlTextReaderConstValue(reader.get()), xpath.c_str());
+            std::string text;
+            readContent(text);
+            parser->query_formula(text.c_str(), xpath.c_str());
             close(tag_t::FORMULA);
         } else
             read();
@@ -1260,8 +1266,9 @@ bool XMLReader::comment()
 {
     if (begin(tag_t::COMMENT, false)) {
         if (!isEmpty()) {
-            read();
-            parser->query_comment((const char*)xmlTextReaderConstValue(reader.get()));
+            std::string text;
+            readContent(text);
+            parser->query_comment(text.c_str());
             close(tag_t::COMMENT);
         } else
             read();
